@@ -70,7 +70,7 @@ Proof. split; apply ext_sub. Qed.
 Lemma add_box_mono s s' b : ssub s s' -> ssub (add_box s b) (add_box s' b).
 Proof. intros [? ?]; split; apply ext_mono; assumption. Qed.
 
-Lemma add_obj_ext s g : ssub s (add_obj s g).
+Lemma add_obj0_ext s g : ssub s (add_obj0 s g).
 Proof.
   destruct g as [b hl lp lw lh | k b | b' hl' lp' lw' lh']; simpl.
   - destruct (label_box b hl lp lw lh).
@@ -80,13 +80,18 @@ Proof.
   - apply ssub_refl.
 Qed.
 
-Lemma add_obj_mono s s' g : ssub s s' -> ssub (add_obj s g) (add_obj s' g).
+Lemma add_obj0_mono s s' g : ssub s s' -> ssub (add_obj0 s g) (add_obj0 s' g).
 Proof.
   intro H. destruct g as [b hl lp lw lh | k b | b' hl' lp' lw' lh']; simpl.
   - destruct (label_box b hl lp lw lh); repeat apply add_box_mono; exact H.
   - destruct H as [H1 H2]. destruct k; split; simpl; try assumption; apply ext_mono; assumption.
   - exact H.
 Qed.
+
+Lemma add_obj_ext s g : ssub s (add_obj s g).
+Proof. apply add_obj0_ext. Qed.
+Lemma add_obj_mono s s' g : ssub s s' -> ssub (add_obj s g) (add_obj s' g).
+Proof. apply add_obj0_mono. Qed.
 
 Lemma add_pt_ext s p : ssub s (add_pt s p).
 Proof. split; apply ext_sub. Qed.
@@ -118,7 +123,7 @@ Proof.
 Qed.
 
 (* everything an element contributes is covered by the final state *)
-Definition obj_covered (s : bbstate) (g : gobj) : Prop :=
+Definition obj_covered0 (s : bbstate) (g : gobj) : Prop :=
   match g with
   | GMain b hl lp lw lh =>
       covers (fst s) (bx b) (bx b + bw b) /\ covers (snd s) (by_ b) (by_ b + bh b) /\
@@ -132,7 +137,7 @@ Definition obj_covered (s : bbstate) (g : gobj) : Prop :=
   | GObjNear _ _ _ _ _ => True
   end.
 
-Lemma obj_covered_sub s s' g : obj_covered s g -> ssub s s' -> obj_covered s' g.
+Lemma obj_covered0_sub s s' g : obj_covered0 s g -> ssub s s' -> obj_covered0 s' g.
 Proof.
   intros H [S1 S2]. destruct g as [b hl lp lw lh | k b | b' hl' lp' lw' lh']; simpl in *; auto.
   - destruct H as (H1 & H2 & H3). repeat split; try (eapply covers_sub; eauto).
@@ -140,7 +145,7 @@ Proof.
   - destruct H as [H1 H2]. split; intro E; eapply covers_sub; eauto.
 Qed.
 
-Lemma add_obj_covers s g : obj_covered (add_obj s g) g.
+Lemma add_obj0_covers s g : obj_covered0 (add_obj0 s g) g.
 Proof.
   destruct g as [b hl lp lw lh | k b | b' hl' lp' lw' lh']; simpl; auto.
   - destruct (label_box b hl lp lw lh) as [l|] eqn:E; simpl.
@@ -150,6 +155,12 @@ Proof.
     + repeat split; apply ext_covers.
   - destruct k; simpl; split; intro E; try discriminate; apply ext_covers.
 Qed.
+
+Definition obj_covered (s : bbstate) (g : gobj) : Prop := obj_covered0 s (plain g).
+Lemma obj_covered_sub s s' g : obj_covered s g -> ssub s s' -> obj_covered s' g.
+Proof. apply obj_covered0_sub. Qed.
+Lemma add_obj_covers s g : obj_covered (add_obj s g) g.
+Proof. apply add_obj0_covers. Qed.
 
 Lemma bb_fold_covers objs pts g : In g objs -> obj_covered (bb_fold objs pts) g.
 Proof.
@@ -175,10 +186,11 @@ Qed.
 Definition bb_le (inner outer : bbox) : Prop :=
   x1 outer <= x1 inner /\ x2 inner <= x2 outer /\ y1 outer <= y1 inner /\ y2 inner <= y2 outer.
 
-Lemma has_shape_in main : has_shape_b main = true -> exists b hl lp lw lh, In (GMain b hl lp lw lh) main.
+Lemma has_shape_in main : has_shape_b main = true ->
+  exists g b hl lp lw lh, In g main /\ plain g = GMain b hl lp lw lh.
 Proof.
   unfold has_shape_b. rewrite existsb_exists. intros [g [Hin Hg]].
-  destruct g as [b hl lp lw lh| |]; try discriminate. eauto 6.
+  destruct (plain g) as [b hl lp lw lh| |] eqn:E; try discriminate. exists g, b, hl, lp, lw, lh. split; [exact Hin | exact E].
 Qed.
 
 Lemma bounding_box_nonempty objs pts : objs <> [] ->
@@ -193,10 +205,11 @@ Proof. destruct l; simpl; [tauto | congruence]. Qed.
 Lemma main_bb_le main extra pts : has_shape_b main = true ->
   bb_le (bounding_box main pts) (bounding_box (main ++ extra) pts).
 Proof.
-  intro H. apply has_shape_in in H as (b & hl & lp & lw & lh & Hin).
+  intro H. apply has_shape_in in H as (g & b & hl & lp & lw & lh & Hin & Hp).
   rewrite !bounding_box_nonempty by
     (eapply in_nonempty; try apply in_or_app; eauto).
-  cbv zeta. pose proof (bb_fold_covers main pts _ Hin) as (C1 & C2 & _).
+  cbv zeta. pose proof (bb_fold_covers main pts _ Hin) as C. unfold obj_covered in C. rewrite Hp in C.
+  destruct C as (C1 & C2 & _).
   pose proof (bb_fold_app main extra pts) as [S1 S2].
   pose proof (rsub_lohi _ _ _ _ C1 S1). pose proof (rsub_lohi _ _ _ _ C2 S2).
   unfold bb_le; simpl. tauto.
@@ -213,7 +226,7 @@ Lemma fold_hcenter_snd extra : Forall (fun g => match g with GNear k _ => is_hce
   forall s, snd (fold_left add_obj extra s) = snd s.
 Proof.
   induction 1 as [|g l Hg _ IH]; intro s; simpl; [reflexivity|].
-  rewrite IH. destruct g as [| k b |]; try tauto. destruct k; simpl in *; try discriminate; reflexivity.
+  rewrite IH. destruct g as [| k b |]; try tauto. unfold add_obj. destruct k; simpl in *; try discriminate; reflexivity.
 Qed.
 
 Lemma placed_phase0 bb ns :
@@ -334,7 +347,7 @@ Proof.
     unfold phase_bb in *. rewrite E in *. simpl bb0 in *. lra.
   - specialize (Hv K). assert (E : phase_of (n_key n) = 1%nat) by (destruct (n_key n); simpl in *; try discriminate; reflexivity).
     unfold phase_bb in *. rewrite E in *.
-    assert (Hne : main <> []) by (apply has_shape_in in Hs as (b & hl & lp & lw & lh & Hi); eapply in_nonempty; eauto).
+    assert (Hne : main <> []) by (apply has_shape_in in Hs as (g0 & b & hl & lp & lw & lh & Hi & _); eapply in_nonempty; eauto).
     destruct (phase1_y_same main pts ns Hne) as [E1 E2]. cbv zeta in E1, E2.
     change (bb0 (layout_phases main pts ns)) with (bounding_box main pts) in E1, E2.
     rewrite E1, E2 in Hv. lra.
@@ -352,9 +365,9 @@ Proof.
   apply covers_lohi in C1, C2. unfold bb_le, box_bb; simpl. tauto.
 Qed.
 
-Lemma thm_clear_of_shapes main pts ns n p b hl lp lw lh :
+Lemma thm_clear_of_shapes main pts ns n p g b hl lp lw lh :
   forallb label_dims_ok_b ns = true ->
-  In (GMain b hl lp lw lh) main ->
+  In g main -> plain g = GMain b hl lp lw lh ->
   In (n, p) (combine ns (layout main pts ns)) ->
   side_ok_b pad 0 (box_bb b) (n_key n) (near_box n p) = true /\
   match label_box b hl lp lw lh with
@@ -362,12 +375,13 @@ Lemma thm_clear_of_shapes main pts ns n p b hl lp lw lh :
   | None => True
   end.
 Proof.
-  intros Hd Hm Hin.
+  intros Hd Hm Hp Hin.
   assert (Hs : has_shape_b main = true).
-  { unfold has_shape_b. rewrite existsb_exists. eexists; split; [exact Hm | reflexivity]. }
+  { unfold has_shape_b. rewrite existsb_exists. exists g; split; [exact Hm | rewrite Hp; reflexivity]. }
   pose proof (thm_outside main pts ns n p pad 0 Hs Hd (Qle_refl _) (Qle_refl _) Hin) as H.
   apply side_ok_b_iff in H.
-  pose proof (bb_fold_covers main pts _ Hm) as (C1 & C2 & C3).
+  pose proof (bb_fold_covers main pts _ Hm) as C. unfold obj_covered in C. rewrite Hp in C.
+  destruct C as (C1 & C2 & C3).
   assert (Hne : main <> []) by (eapply in_nonempty; eauto).
   split.
   - apply side_ok_b_iff. eapply side_ok_le; [exact H | apply covers_bb_le; assumption].
@@ -384,7 +398,7 @@ Proof.
   intros Hs Hd Hq Hin.
   pose proof (thm_outside main pts ns n p pad 0 Hs Hd (Qle_refl _) (Qle_refl _) Hin) as H.
   apply side_ok_b_iff in H. apply side_ok_b_iff. eapply side_ok_le; [exact H|].
-  assert (Hne : main <> []) by (apply has_shape_in in Hs as (b & hl & lp & lw & lh & Hi); eapply in_nonempty; eauto).
+  assert (Hne : main <> []) by (apply has_shape_in in Hs as (g0 & b & hl & lp & lw & lh & Hi & _); eapply in_nonempty; eauto).
   rewrite bounding_box_nonempty by exact Hne. cbv zeta.
   destruct (bb_fold_covers_pt main pts q Hq) as [C1 C2].
   apply covers_lohi in C1, C2. unfold bb_le, pt_bb; simpl. tauto.
@@ -470,50 +484,22 @@ Proof.
     destruct Cov. split; intro K; [specialize (T K) | specialize (B K)]; unfold pad in *; lra.
 Qed.
 
-(* ------------------------------------------------------------------ the whole main diagram *)
-Lemma map_plain_id main : no_obj_near_b main = true -> map plain main = main.
-Proof.
-  unfold no_obj_near_b. induction main as [|g l IH]; simpl; [reflexivity|].
-  rewrite andb_true_iff. intros [Hg Hl]. rewrite (IH Hl). destruct g; try discriminate; reflexivity.
-Qed.
-
-Lemma full_box_no_obj_near main pts : no_obj_near_b main = true -> full_box main pts [] = bounding_box main pts.
-Proof. intro H. unfold full_box. rewrite map_plain_id by exact H. rewrite app_nil_r. reflexivity. Qed.
-
-Lemma thm_outside_full main pts ns n p margin tol :
-  no_obj_near_b main = true ->
-  has_shape_b main = true -> forallb label_dims_ok_b ns = true ->
-  margin <= pad -> 0 <= tol ->
-  In (n, p) (combine ns (layout main pts ns)) ->
-  side_ok_b margin tol (full_box main pts []) (n_key n) (near_box n p) = true /\
-  center_ok_b tol (full_box main pts []) (n_key n) (near_box n p) = true.
-Proof.
-  intros Hno Hs Hd Hm Ht Hin. rewrite full_box_no_obj_near by exact Hno.
-  split; [eapply thm_outside | eapply thm_centered]; eassumption.
-Qed.
-
+(* ------------------------------------------------------------------ history: before 40b9f8452 *)
 (* the diagram   b;  a: {near: b; width: 800; height: 400};  r: R {near: bottom-right}   as dagre lays it out *)
 Definition cex_main : list gobj :=
   [GMain (mkbox 0 167 53 66) true None 8 21; GObjNear (mkbox 113 0 800 400) true None 8 21].
 Definition cex_near : nearobj := mknear BottomRight 54 66 None 9 21.
 
-Lemma thm_object_near_refuted :
+(* the pinned boundingBox did not see the 800x400 shape: the bottom-right near landed inside it *)
+Lemma thm_pinned_refuted :
   let p := (73 # 1, 253 # 1) in
   has_shape_b cex_main = true /\ forallb label_dims_ok_b [cex_near] = true /\
-  In (cex_near, p) (combine [cex_near] (layout cex_main [] [cex_near])) /\
-  side_ok_b 0 0 (full_box cex_main [] []) BottomRight (near_box cex_near p) = false /\
+  In (cex_near, p) (combine [cex_near] (layout_pinned cex_main [] [cex_near])) /\
+  side_ok_b 0 0 (bounding_box cex_main []) BottomRight (near_box cex_near p) = false /\
   boxes_overlap_b (near_box cex_near p) (mkbox 113 0 800 400) = true.
 Proof. vm_compute. repeat split; try reflexivity. left. reflexivity. Qed.
 
-(* the repaired boundingBox (fix.patch) counts shape-near shapes like every other shape: it is the pinned
-   function on [map plain main]; with it the unguarded statement holds *)
-Lemma thm_fixed_whole_diagram main pts ns n p margin tol :
-  has_shape_b (map plain main) = true -> forallb label_dims_ok_b ns = true ->
-  margin <= pad -> 0 <= tol ->
-  In (n, p) (combine ns (layout (map plain main) pts ns)) ->
-  side_ok_b margin tol (full_box main pts []) (n_key n) (near_box n p) = true /\
-  center_ok_b tol (full_box main pts []) (n_key n) (near_box n p) = true.
-Proof.
-  intros Hs Hd Hm Ht Hin. unfold full_box. rewrite app_nil_r.
-  split; [eapply thm_outside | eapply thm_centered]; eassumption.
-Qed.
+(* the repaired code puts it at (933,420) *)
+Lemma thm_repaired_example :
+  In (cex_near, (933 # 1, 420 # 1)) (combine [cex_near] (layout cex_main [] [cex_near])).
+Proof. vm_compute. left. reflexivity. Qed.
